@@ -114,6 +114,12 @@ def payload_forms(rnd):
         ("shadowed-typed-let", "    let v: Foo = make_foo();\n    drop(v);\n    let v: Vec<Bar> = Vec::new();\n", "v", "", ("vec", rg.N("Bar"))),
         ("let-shadows-typed-parameter", "    let p = Bar { b: String::new() };\n", "&p", "p: Foo", rg.N("Bar")),
         ("typed-let-shadows-typed-parameter", "    let p: Kind = pick();\n", "p", "p: Foo", rg.N("Kind")),
+        # the clone-then-move idiom: a typed name re-bound under its own name through a method call. The tool keeps the type; `unknown`
+        # would also be within the statement (an un-annotated let from a call) — anything else is not
+        ("rebound-clone-of-typed-param", "    let p = p.clone();\n", "p", "p: Foo", rg.N("Foo")),
+        ("rebound-to-owned-of-typed-param-then-ref", "    let p = p.to_owned();\n", "&p", "p: Bar", rg.N("Bar")),
+        ("rebound-clone-of-typed-let", "    let v: Kind = pick();\n    let v = v.clone();\n", "v.clone()", "", rg.N("Kind")),
+        ("rebound-clone-of-typed-vec-param", "    let p = p.clone();\n    let handle = 1;\n", "p", "p: Vec<Foo>", t_vec),
         # not syntactically evident => unknown
         ("call-result", "", "make_foo()", "", None),
         ("method-result", "", "p.to_summary()", "p: Foo", None),
@@ -326,6 +332,8 @@ def run_case(a):
                     if model is not None and s == model:
                         known_c05 = True
                         break
+                if s != want and fm.startswith("rebound-") and s == ("unknown",):
+                    continue
                 if s != want:
                     ident = payload_ident.get(fm)
                     if exp is None and ident and s == ("ref", ident):
